@@ -330,6 +330,14 @@ func runC01(r *core.Run) {
 		})
 
 	nilFieldsFasta(r)
+	firstBytes(r, "fasta", func(prefix string) ([]byte, []obsItem, bool, string) {
+		if hasDelim(prefix) {
+			return nil, nil, false, ""
+		}
+		recs := []faRec{{core.S(prefix + "x"), "AC"}, {"b", "G"}}
+		data, fail := writeFastaChecked(recs)
+		return data, wantFasta(recs), true, fail
+	})
 	interleavedReadersFor(r, []string{"fasta"})
 	consumerMutatesRecords(r, []string{"fasta"})
 	bigFiles(r, "fasta", []int{0})
